@@ -25,15 +25,15 @@ BUDGET = 20000
 
 def shards(tier, seed):
     out = [{"name": "analysis-exact", "kind": "exact", "weight": 1}]
-    step = 0.001 if tier == "quick" else 0.0001
+    step = 0.0005 if tier == "quick" else 0.0001
     for i, b in enumerate(BASES):
         if tier == "quick" and i % 2:
             continue
         out.append({"name": "near-%s" % b, "kind": "near", "bases": [b] if tier != "quick" else BASES[i:i + 2],
                     "step": step, "weight": 3})
-    out.append({"name": "arithmetic", "kind": "arith", "n": 400 if tier == "quick" else 20000, "weight": 2})
+    out.append({"name": "arithmetic", "kind": "arith", "n": 3000 if tier == "quick" else 20000, "weight": 2})
     out.append({"name": "meter-systematic", "kind": "meter", "weight": 4})
-    out.append({"name": "meter-random", "kind": "meter-random", "n": 300 if tier == "quick" else 10000, "weight": 4})
+    out.append({"name": "meter-random", "kind": "meter-random", "n": 3000 if tier == "quick" else 20000, "weight": 4})
     return out
 
 
